@@ -607,6 +607,12 @@ class _Gen:
                 # the name held a plain value before the definition: the definition is what the interpreter ends up with
                 items.insert(len(items) - 1 - (1 if items[-1].kind == 'dup' else 0), Item(kind='raw', text=f'{d.name} = {r.choice(["0", "None", "[]"])}'))
         items.extend(deferred)
+        if f.odd_names and r.random() < .2:
+            # two classes whose qualified names differ in case only (a class and its lower-case compatibility subclass)
+            cls_names = [n for n, _, k_ in exports if k_ == 'class' and n != n.lower() and not any(e[0] == n.lower() for e in exports)]
+            if cls_names:
+                n0 = r.choice(cls_names)
+                items.append(Item(kind='raw', name=n0.lower(), text=f'class {n0.lower()}({n0}):\n    """Lower-case spelling of L{{{n0}}}."""'))
         if f.zope and r.random() < .35:
             items.insert(0, Item(kind='raw', text='from zope.interface import Interface, implementer'))
             iu = self.new_uid()
@@ -921,6 +927,28 @@ class _Gen:
                 dm.items.insert(0, Item(kind='raw', text=r.choice([f'from typing import Any as {qual}', f'from collections import OrderedDict as {qual}'])))
                 s.notes['definer_imports_the_name'] = True
 
+    def add_default_refs(self, p: float) -> None:
+        """a function whose parameter defaults name a constant and a function of its own module is re-exported by another module, the
+        constant and the other function are not: the names in the displayed defaults still lead to them"""
+        r, s = self.r, self.spec
+        root = s.mods[0]
+        done = set()
+        for uid, (rmid, exported) in list(s.moved.items()):
+            dmid, qual, kind = s.defs[uid]
+            dm = next(x for x in s.mods if x.mid == dmid)
+            if dmid in done or dm.is_pkg or s.notes.get(('all', dmid)) or r.random() >= p:
+                continue
+            done.add(dmid)
+            cu = self.new_uid()
+            dm.items.append(Item(kind='raw', name=f'dflt{cu}', text=(
+                f'DEFAULT_PORT{cu} = 8080\n"""The default port."""\ndef helper{cu}(x):\n    """A helper that stays."""\n'
+                f'def dflt{cu}(port=DEFAULT_PORT{cu}, callback=helper{cu}, *, pair=(DEFAULT_PORT{cu}, helper{cu})):\n    """Function with defaults naming neighbours."""')))
+            pm = Mod(len(s.mods), f"{r.choice(['a', 'z', 'm'])}pubd{cu}", root.mid, False, order=10 ** 5 + cu)
+            pm.items = [Item(kind='raw', text=f'from {s.modname(dmid)} import dflt{cu}\n__all__ = [{"dflt" + str(cu)!r}]')]
+            pm.doc = f'Publishes a function of module {dmid}.'
+            s.mods.append(pm)
+            s.notes.setdefault('default_refs', []).append({'dmid': dmid, 'pmid': pm.mid, 'cu': cu})
+
     def add_privacy(self) -> None:
         r, s = self.r, self.spec
         rules = []
@@ -970,6 +998,8 @@ def generate(r: Any, f: Features) -> Spec:
         g.add_consumers()
     elif f.reexports:
         g.add_definer_imports(.15)
+    if f.reexports:
+        g.add_default_refs(.3)
     if f.cycles:
         g.add_cycles()
     if f.privacy:
